@@ -447,6 +447,9 @@ func c09Gen(seed uint64, tier string) *Plan {
 		}
 		p.Actions = append(p.Actions, a)
 	}
+	if ra := rng.Fork("autoholds"); ra.Bool(0.3) {
+		p.Holds = append(p.Holds, AutoHolds(ra, AutoSitesSilence[:2], ra.Range(1, 2), 24, 50*time.Millisecond, 60*time.Second)...)
+	}
 	return p
 }
 
